@@ -555,13 +555,14 @@ def run_life(seed, role, cause, point, blocked_consumer, restart=True, hook=None
         problems = []
         consumer_result = []
         if point == "refused":
-            n.start(refused=True)
+            # every other scenario lets the new state machine thread run while start() is still executing
+            n.start(refused=True, racing=(seed % 2 == 1))
         else:
             if point in ("open", "open-inbound", "open-outbound", "closing"):
                 if not sc.open():
                     return "connection did not open", {"blocked": sc.s.describe_blocked()}
             else:
-                n.start()
+                n.start(racing=(seed % 2 == 1 and point == "setup"))
                 if point == "wait-cea" and role == "client":
                     sc.run(until=lambda: n.state() == "WaitICEA" and sc.complete_messages(n.sock.sent) >= 1, limit=4000)
         cons = None
